@@ -111,18 +111,23 @@ Definition returns (c : cfg) (h : N) : option pv :=
   | Some b => match h_outcome b with Returns v => Some v | Raises _ => None end
   | None => None
   end.
-(* the invocations that notifying (event, namespace, args) must produce; None = the responsible
-   handler raises (outside the specified domain) *)
+(* the invocations that notifying (event, namespace, args) must produce; None = the notification
+   raises (the responsible handler raises, or its signature does not accept the arguments):
+   outside the specified domain *)
 Definition notify (c : cfg) (ev : pv) (ns : str) (args : list pv) : option (list (N * list pv)) :=
-  match responsible c ev ns args with
-  | None => Some []
-  | Some (h, a) =>
-      match returns c h with
-      | None => None
-      | Some _ =>
-          if arity_fits c h (List.length a) then Some [(h, a)]
-          else if is_disconnect ev && arity_fits c h (List.length (removelast a)) then Some [(h, removelast a)]
-          else Some []               (* TypeError before the body runs: nothing invoked *)
+  match get_event_handler c ev ns args with
+  | Err _ => None
+  | Ok _ =>
+      match responsible c ev ns args with
+      | None => Some []
+      | Some (h, a) =>
+          match returns c h with
+          | None => None
+          | Some _ =>
+              if arity_fits c h (List.length a) then Some [(h, a)]
+              else if is_disconnect ev && arity_fits c h (List.length (removelast a)) then Some [(h, removelast a)]
+              else None
+          end
       end
   end.
 
@@ -139,3 +144,8 @@ Definition frames_of (t : Z) (data : pv) (ns : str) (id : option Z) : Res (list 
 
 Definition bits (corr : bool) (mask : nat) : nat :=
   ((if corr then 0 else 1) + (match mask with O => 0 | _ => 2 + mask end))%nat.
+
+(* a checker applied to the model's own run: the observations the model itself produces *)
+Definition model_obs (c : cfg) (ops : list op) : list (list eff * cdump) :=
+  map (fun se => (filter observable (snd se), dump_of (fst se))) (snd (run c cli_init ops)).
+Definition model_case (c : cfg) (ops : list op) : ccase := mkCase c ops (model_obs c ops).
